@@ -160,3 +160,571 @@ Proof.
   rewrite (dece_unpack _ _ _ _ _ Hd name_fuel p []); [reflexivity|exact Hh|cbn; lia|].
   pose proof (raw_len_ge ls Hf). pose proof name_fuel_big. lia.
 Qed.
+
+(* ---------- what Name.pack writes with compression, as a function of the table it starts with ---------- *)
+Definition ptr_bytes (p : nat) : list N := [ptr_hi p; ptr_lo p].
+
+(* the octets of a name whose remaining labels are ls, looked up in the table t0 *)
+Fixpoint cname (ls : list (list N)) (t0 : tbl) : list N :=
+  match ls with
+  | [] => [0%N]
+  | l :: r => match tbl_find (raw ls) t0 with
+              | Some p => ptr_bytes p
+              | None => N.of_nat (length l) :: l ++ cname r t0
+              end
+  end.
+
+(* the table entries the name adds (suffixes written in place at positions <= 16383), most recent first *)
+Fixpoint centries (ls : list (list N)) (t0 : tbl) (pos : nat) : tbl :=
+  match ls with
+  | [] => []
+  | l :: r => match tbl_find (raw ls) t0 with
+              | Some _ => []
+              | None => centries r t0 (pos + 1 + length l) ++
+                        (if (N.of_nat pos <=? 16383)%N then [(raw ls, pos)] else [])
+              end
+  end.
+
+Lemma list_eqb_len a : forall b, list_eqb a b = true -> length a = length b.
+Proof. intros b H. apply list_eqb_eq in H. now subst. Qed.
+
+(* entries whose keys are longer than k never answer a lookup of k *)
+Lemma tbl_find_longer k own t0 : Forall (fun e => length k < length (fst e)) own ->
+  tbl_find k (own ++ t0) = tbl_find k t0.
+Proof.
+  induction 1 as [|[k' p] own Hk _ IH]; cbn [app tbl_find]; [reflexivity|].
+  destruct (list_eqb k k') eqn:E; [apply list_eqb_len in E; cbn in Hk; lia|exact IH].
+Qed.
+
+Lemma raw_cons_len l r : length (raw (l :: r)) = S (length l + length (raw r)).
+Proof. cbn [raw length]. rewrite app_length. reflexivity. Qed.
+
+Lemma pack_name_go_cname ls : Forall wf_label ls -> forall fuel off own t0 acc,
+  length ls <= fuel ->
+  Forall (fun e => length (raw ls) < length (fst e)) own ->
+  pack_name_go fuel true (raw ls) off (own ++ t0) acc =
+    Ok (acc ++ cname ls t0, centries ls t0 (off + length acc) ++ own ++ t0).
+Proof.
+  induction 1 as [|l ls [Hl Hb] Hls IH]; intros fuel off own t0 acc Hf Hown.
+  - destruct fuel; reflexivity.
+  - cbn [raw]. destruct fuel as [|fuel]; [cbn in Hf; lia|]. cbn [pack_name_go].
+    assert ((N.of_nat (length l) =? 0)%N = false) as -> by (apply N.eqb_neq; lia).
+    assert ((63 <? N.of_nat (length l))%N = false) as -> by (apply N.ltb_ge; lia).
+    rewrite Nat2N.id.
+    assert (length (l ++ raw ls) <? length l = false) as -> by (apply Nat.ltb_ge; rewrite app_length; lia).
+    change (N.of_nat (length l) :: l ++ raw ls) with (raw (l :: ls)).
+    rewrite (tbl_find_longer (raw (l :: ls)) own t0 Hown).
+    cbn [cname centries]. destruct (tbl_find (raw (l :: ls)) t0) as [p|] eqn:Ef.
+    + reflexivity.
+    + cbn [raw]. rewrite skipn_app, skipn_all, Nat.sub_diag. cbn [skipn app].
+      rewrite firstn_app, firstn_all, Nat.sub_diag. cbn [firstn]. rewrite app_nil_r.
+      cbn [andb].
+      set (here := off + length acc).
+      set (own' := (if (N.of_nat here <=? 16383)%N then [(N.of_nat (length l) :: l ++ raw ls, here)] else []) ++ own).
+      assert ((if (N.of_nat here <=? 16383)%N then (N.of_nat (length l) :: l ++ raw ls, here) :: own ++ t0 else own ++ t0)
+              = own' ++ t0) as -> by (unfold own'; destruct (N.of_nat here <=? 16383)%N; reflexivity).
+      rewrite (IH fuel off own' t0 (acc ++ N.of_nat (length l) :: l)).
+      * f_equal. f_equal.
+        -- rewrite <- app_assoc. reflexivity.
+        -- rewrite app_length. cbn [length]. unfold own', here.
+           replace (off + (length acc + S (length l))) with (off + length acc + 1 + length l) by lia.
+           rewrite <- !app_assoc. reflexivity.
+      * cbn in Hf. lia.
+      * unfold own'. apply Forall_app. split.
+        -- destruct (N.of_nat here <=? 16383)%N; constructor; [|constructor]. cbn [fst length].
+           rewrite app_length. lia.
+        -- eapply Forall_impl; [|exact Hown]. intros e He. cbn [raw length] in He. rewrite app_length in He. lia.
+Qed.
+
+Lemma pack_name_cname ls off t0 : wf_labels ls ->
+  pack_name true (raw ls) off t0 = Ok (cname ls t0, centries ls t0 off ++ t0).
+Proof.
+  intros [Hf Hl]. unfold pack_name.
+  assert (254 <? length (raw ls) = false) as -> by (apply Nat.ltb_ge; lia).
+  pose proof (pack_name_go_cname ls Hf (length (raw ls)) off [] t0 [] (raw_len_ge ls Hf) (Forall_nil _)) as H.
+  cbn [app length] in H. rewrite Nat.add_0_r in H. exact H.
+Qed.
+
+(* ---------- the compression-table invariant ---------- *)
+Definition entry_ok (buf : list N) (e : list N * nat) : Prop :=
+  exists ls h, fst e = raw ls /\ Forall wf_label ls /\ ls <> [] /\ snd e < ptr_limit /\
+               dec buf (snd e) ls h /\ S h <= length ls.
+Definition tbl_ok (buf : list N) (t : tbl) : Prop := Forall (entry_ok buf) t.
+
+Lemma tbl_ok_app buf x t : tbl_ok buf t -> tbl_ok (buf ++ x) t.
+Proof.
+  unfold tbl_ok. apply Forall_impl. intros e (ls & h & H1 & H2 & H3 & H4 & H5 & H6).
+  exists ls, h. repeat split; auto. now apply dec_app.
+Qed.
+
+Lemma tbl_find_in k t p : tbl_find k t = Some p -> In (k, p) t.
+Proof.
+  induction t as [|[k' p'] t IH]; cbn [tbl_find]; [discriminate|].
+  destruct (list_eqb k k') eqn:E.
+  - intros H. inversion H; subst. apply list_eqb_eq in E. subst. now left.
+  - intros H. right. now apply IH.
+Qed.
+
+Lemma app_inv_len {A} (a b x y : list A) : length a = length b -> a ++ x = b ++ y -> a = b /\ x = y.
+Proof.
+  revert b; induction a as [|u a IH]; intros [|v b] Hl H; cbn in *; try discriminate; [auto|].
+  inversion H; subst. destruct (IH b) as [-> ->]; auto.
+Qed.
+
+Lemma raw_inj a : Forall wf_label a -> forall b, Forall wf_label b -> raw a = raw b -> a = b.
+Proof.
+  induction 1 as [|l a [Hl _] _ IH]; intros b Hb H.
+  - destruct b as [|m b]; [reflexivity|]. cbn in H. discriminate.
+  - destruct b as [|m b]; [cbn in H; discriminate|]. inversion Hb as [|? ? [Hm _] Hb']; subst.
+    cbn [raw] in H. inversion H as [[Hlen Happ]].
+    assert (length l = length m) as Hll by lia.
+    destruct (app_inv_len _ _ _ _ Hll Happ) as [-> Hr]. f_equal. now apply IH.
+Qed.
+
+Lemma get_mid pre x post i c : get x i = Some c -> get (pre ++ x ++ post) (length pre + i) = Some c.
+Proof. intros H. rewrite get_app2. now apply get_app1. Qed.
+
+Lemma cname_dece ls : Forall wf_label ls -> forall pre t0 post,
+  tbl_ok pre t0 ->
+  exists h, dece (pre ++ cname ls t0 ++ post) (length pre) ls h (length pre + length (cname ls t0)) /\
+            h <= length ls /\
+            (tbl_find (raw ls) t0 = None -> ls <> [] -> S h <= length ls) /\
+            tbl_ok (pre ++ cname ls t0 ++ post) (centries ls t0 (length pre)).
+Proof.
+  induction 1 as [|l ls Hl Hls IH]; intros pre t0 post Ht.
+  - exists 0. cbn [cname centries length]. split; [|split; [lia|split; [intros _ H; now contradiction H|constructor]]].
+    replace (length pre + 1) with (S (length pre)) by lia. apply dece_end.
+    replace (length pre) with (length pre + 0) at 1 by lia. apply get_mid. reflexivity.
+  - cbn [cname centries]. destruct (tbl_find (raw (l :: ls)) t0) as [p|] eqn:Ef.
+    + apply tbl_find_in in Ef. unfold tbl_ok in Ht. rewrite Forall_forall in Ht.
+      destruct (Ht _ Ef) as (ls' & h' & H1 & H2 & H3 & H4 & H5 & H6). cbn [fst snd] in *.
+      assert (ls' = l :: ls) as -> by (symmetry; apply raw_inj; auto).
+      destruct (ptr_ok p H4) as (P1 & P2 & _ & _).
+      exists (S h'). split; [|split; [exact H6|split; [discriminate|constructor]]].
+      replace (length pre + length (ptr_bytes p)) with (S (S (length pre))) by (cbn; lia).
+      eapply dece_ptr with (c := ptr_hi p) (c1 := ptr_lo p); [exact P1| | |].
+      * replace (length pre) with (length pre + 0) at 1 by lia. apply get_mid. reflexivity.
+      * replace (S (length pre)) with (length pre + 1) by lia. apply get_mid. reflexivity.
+      * rewrite P2. apply dec_app. exact H5.
+    + set (pre' := pre ++ N.of_nat (length l) :: l).
+      assert (Hpre' : length pre' = length pre + 1 + length l) by (unfold pre'; rewrite app_length; cbn; lia).
+      assert (HB : forall post, pre ++ (N.of_nat (length l) :: l ++ cname ls t0) ++ post = pre' ++ cname ls t0 ++ post).
+      { intros. unfold pre'. rewrite <- !app_assoc. cbn. rewrite <- app_assoc. reflexivity. }
+      rewrite HB.
+      destruct (IH pre' t0 post (tbl_ok_app _ _ _ Ht)) as (h & D & Hh & _ & Hent).
+      assert (Hd : dece (pre' ++ cname ls t0 ++ post) (length pre) (l :: ls) h (length pre' + length (cname ls t0))).
+      { apply dece_label; [exact Hl| | |].
+        - unfold pre'. rewrite <- app_assoc. replace (length pre) with (length pre + 0) at 1 by lia.
+          rewrite get_app2. reflexivity.
+        - unfold pre'.
+          replace (S (length pre)) with (length (pre ++ [N.of_nat (length l)])) by (rewrite app_length; cbn; lia).
+          replace ((pre ++ N.of_nat (length l) :: l) ++ cname ls t0 ++ post)
+            with ((pre ++ [N.of_nat (length l)]) ++ l ++ (cname ls t0 ++ post)).
+          + apply slice_mid.
+          + rewrite <- !app_assoc. reflexivity.
+        - replace (S (length pre) + length l) with (length pre') by lia. exact D. }
+      exists h. split; [|split; [cbn; lia|split; [intros _ _; cbn; lia|]]].
+      * cbn [length]. rewrite app_length. replace (length pre + S (length l + length (cname ls t0)))
+          with (length pre' + length (cname ls t0)) by lia. exact Hd.
+      * unfold tbl_ok. apply Forall_app. split.
+        -- rewrite <- Hpre'. exact Hent.
+        -- destruct (N.of_nat (length pre) <=? 16383)%N eqn:Ep; [|constructor].
+           constructor; [|constructor]. exists (l :: ls), h. cbn [fst snd].
+           split; [reflexivity|]. split; [constructor; assumption|]. split; [discriminate|].
+           split; [now apply ptr_limit_le|]. split; [exact (dece_dec _ _ _ _ _ Hd)|cbn; lia].
+Qed.
+
+(* ---------- names ---------- *)
+(* number of labels of a name (0 for a name that does not scan) *)
+Definition name_depth (n : list N) : nat := match scan n with Ok ls => length ls | _ => 0 end.
+
+Lemma wf_name_depth n : wf_name n -> exists ls, n = raw ls /\ wf_labels ls /\ name_depth n = length ls.
+Proof.
+  intros (ls & -> & Hw). exists ls. split; [reflexivity|]. split; [exact Hw|].
+  unfold name_depth. now rewrite scan_raw.
+Qed.
+
+(* compressed-correct: packing x at the end of [pre] with a good table succeeds, keeps the table good for the longer
+   buffer, and the decoder reads x' back from there, ending exactly after the octets written *)
+Definition cc_name (n : list N) : Prop := forall pre t, tbl_ok pre t ->
+  exists b t', pack_name true n (length pre) t = Ok (b, t') /\
+    (forall post, tbl_ok (pre ++ b ++ post) t') /\
+    (forall post, unpack_name (pre ++ b ++ post) (length pre) = Ok (n, length pre + length b)).
+
+Lemma cc_name_ok n : wf_name n -> name_depth n <= 10 -> cc_name n.
+Proof.
+  intros Hw Hd pre t Ht. destruct (wf_name_depth n Hw) as (ls & -> & Hwl & Hdl). rewrite Hdl in Hd.
+  rewrite (pack_name_cname ls (length pre) t Hwl). do 2 eexists. split; [reflexivity|].
+  destruct Hwl as [Hf Hl]. split.
+  - intros post. destruct (cname_dece ls Hf pre t post Ht) as (h & _ & _ & _ & He).
+    unfold tbl_ok. apply Forall_app. split; [exact He|]. apply tbl_ok_app. exact Ht.
+  - intros post. destruct (cname_dece ls Hf pre t post Ht) as (h & D & Hh & _ & _).
+    eapply dece_unpack_name; [exact D|lia|split; assumption].
+Qed.
+
+(* ---------- questions ---------- *)
+Lemma sub_at pre x post : sub (pre ++ x ++ post) (length pre) x.
+Proof. exists pre, post. split; reflexivity. Qed.
+
+Lemma sub_at2 a b x post : sub (a ++ (b ++ x ++ post)) (length a + length b) x.
+Proof. exists (a ++ b), post. rewrite app_length, <- app_assoc. split; reflexivity. Qed.
+
+Definition q_depth_ok (q : question) : Prop := name_depth (q_name q) <= 10.
+
+Definition cc_question (q : question) : Prop := forall pre t, tbl_ok pre t ->
+  exists b t', pack_question true q (length pre) t = Ok (b, t') /\
+    (forall post, tbl_ok (pre ++ b ++ post) t') /\
+    (forall post, unpack_question (pre ++ b ++ post) (length pre) = Ok (q, length pre + length b)).
+
+Lemma cc_question_ok q : wf_question q -> q_depth_ok q -> cc_question q.
+Proof.
+  intros (Hn & Ht & Hc) Hd pre t Hok. destruct (cc_name_ok _ Hn Hd pre t Hok) as (nb & t1 & Hp & Htab & Hun).
+  unfold pack_question. rewrite Hp. cbn [bind]. do 2 eexists. split; [reflexivity|]. split.
+  - intros post. specialize (Htab (be16 (q_type q) ++ be16 (q_class q) ++ post)).
+    rewrite <- !app_assoc. exact Htab.
+  - intros post. unfold unpack_question. destruct q as [n ty cl]. cbn [q_name q_type q_class] in *.
+    specialize (Hun (be16 ty ++ be16 cl ++ post)).
+    replace (pre ++ (nb ++ be16 ty ++ be16 cl) ++ post) with (pre ++ nb ++ be16 ty ++ be16 cl ++ post)
+      by (rewrite <- !app_assoc; reflexivity).
+    rewrite Hun. cbn [bind].
+    rewrite (sub_u16x _ _ (length pre + length nb) ty); [|apply sub_at2|exact Ht|reflexivity]. cbn [bind].
+    rewrite (sub_u16x _ _ (length pre + length nb + 2) cl); [| |exact Hc|reflexivity].
+    + cbn [bind]. f_equal. f_equal. rewrite !app_length, !be16_len. lia.
+    + exists (pre ++ nb ++ be16 ty), post. rewrite !app_length, be16_len, <- !app_assoc. split; [reflexivity|lia].
+Qed.
+
+(* ---------- RDATA ---------- *)
+Definition rdata_depth_ok (d : rdata) : Prop :=
+  match d with
+  | RName n => name_depth n <= 10
+  | RSOA ns mb _ _ _ _ _ => name_depth ns <= 10 /\ name_depth mb <= 10
+  | RMX _ mx => name_depth mx <= 10
+  | RSRV _ _ _ tg => name_depth tg <= 10
+  | _ => True
+  end.
+
+Definition cc_rdata (typ : N) (d : rdata) : Prop := forall pre t, tbl_ok pre t ->
+  exists b t', pack_rdata true d (length pre) t = Ok (b, t') /\
+    (forall post, tbl_ok (pre ++ b ++ post) t') /\
+    (forall post, unpack_rdata (pre ++ b ++ post) (length pre) typ (rdlen_field d b) = Ok (d, length pre + length b)) /\
+    (N.of_nat (length b) < 65536)%N.
+
+Lemma name_len_small c n off t b t' : pack_name c n off t = Ok (b, t') -> length b <= 255.
+Proof. intros H. apply pack_name_len in H. unfold name_pack_len in H. lia. Qed.
+
+Lemma mod_small k : (N.of_nat k < 65536)%N -> N.to_nat (N.of_nat k mod 65536) = k.
+Proof. intros H. rewrite N.mod_small by exact H. apply Nat2N.id. Qed.
+
+Lemma cc_rdata_ok typ d : wf_rdata typ d -> rdata_depth_ok d -> cc_rdata typ d.
+Proof.
+  unfold wf_rdata, cc_rdata. destruct (kind_of_type typ) eqn:Ek, d; try contradiction;
+    cbn [rdata_depth_ok pack_rdata rdlen_field]; intros Hw Hd pre t Hok; unfold unpack_rdata; rewrite Ek.
+  - (* A *) destruct Hw as [Hl Hb]. do 2 eexists. split; [reflexivity|]. split; [intros; now apply tbl_ok_app|]. split; [|lia].
+    intros post. cbn [N.eqb Pos.eqb].
+    rewrite (sub_bytesx _ _ (length pre) 4 a); [|apply sub_at|reflexivity|auto]. cbn [bind]. reflexivity.
+  - (* AAAA *) destruct Hw as [Hl Hb]. do 2 eexists. split; [reflexivity|]. split; [intros; now apply tbl_ok_app|]. split; [|lia].
+    intros post. cbn [N.eqb Pos.eqb].
+    rewrite (sub_bytesx _ _ (length pre) 16 a); [|apply sub_at|reflexivity|auto]. cbn [bind]. reflexivity.
+  - (* NAME *) destruct (cc_name_ok _ Hw Hd pre t Hok) as (b & t1 & Hp & Htab & Hun).
+    pose proof (name_len_small _ _ _ _ _ _ Hp) as Hlen.
+    exists b, t1. split; [exact Hp|]. split; [exact Htab|]. split; [|lia].
+    intros post. rewrite Hun. cbn [bind]. apply check_len_eq. rewrite mod_small by lia. lia.
+  - (* SOA *) destruct Hw as (W1 & W2 & U1 & U2 & U3 & U4 & U5). destruct Hd as [D1 D2].
+    destruct (cc_name_ok _ W1 D1 pre t Hok) as (b1 & t1 & Hp1 & Htab1 & Hun1). rewrite Hp1. cbn [bind].
+    pose proof (Htab1 []) as Hok1. rewrite app_nil_r in Hok1.
+    destruct (cc_name_ok _ W2 D2 (pre ++ b1) t1 Hok1) as (b2 & t2 & Hp2 & Htab2 & Hun2).
+    rewrite app_length in Hp2. rewrite Hp2. cbn [bind].
+    pose proof (name_len_small _ _ _ _ _ _ Hp1) as L1. pose proof (name_len_small _ _ _ _ _ _ Hp2) as L2.
+    do 2 eexists. split; [reflexivity|]. split; [|split].
+    + intros post. specialize (Htab2 (be32 serial ++ be32 refresh ++ be32 retry ++ be32 expire ++ be32 minttl ++ post)).
+      rewrite <- !app_assoc in *. exact Htab2.
+    + intros post.
+      set (tail := be32 serial ++ be32 refresh ++ be32 retry ++ be32 expire ++ be32 minttl ++ post).
+      replace (pre ++ (b1 ++ b2 ++ be32 serial ++ be32 refresh ++ be32 retry ++ be32 expire ++ be32 minttl) ++ post)
+        with (pre ++ b1 ++ b2 ++ tail) by (unfold tail; rewrite <- !app_assoc; reflexivity).
+      rewrite (Hun1 (b2 ++ tail)). cbn [bind].
+      specialize (Hun2 tail). rewrite <- app_assoc, app_length in Hun2. rewrite Hun2. cbn [bind].
+      set (o := length pre + length b1 + length b2).
+      assert (S1 : forall k x rest front, length front = k ->
+                sub (pre ++ b1 ++ b2 ++ front ++ x ++ rest) (o + k) x).
+      { intros k x rest front Hk. exists (pre ++ b1 ++ b2 ++ front), rest.
+        rewrite !app_length, <- !app_assoc. split; [reflexivity|unfold o; lia]. }
+      unfold tail.
+      rewrite (sub_u32x _ _ (o + 0) serial); [|apply (S1 0 _ _ []); reflexivity|exact U1|lia]. cbn [bind].
+      rewrite (sub_u32x _ _ (o + 4) refresh); [|apply (S1 4 _ _ (be32 serial)); reflexivity|exact U2|lia]. cbn [bind].
+      rewrite (sub_u32x _ _ (o + 8) retry);
+        [|replace (be32 serial ++ be32 refresh ++ be32 retry ++ be32 expire ++ be32 minttl ++ post)
+            with ((be32 serial ++ be32 refresh) ++ be32 retry ++ be32 expire ++ be32 minttl ++ post)
+            by (rewrite <- !app_assoc; reflexivity); apply S1; reflexivity|exact U3|lia]. cbn [bind].
+      rewrite (sub_u32x _ _ (o + 12) expire);
+        [|replace (be32 serial ++ be32 refresh ++ be32 retry ++ be32 expire ++ be32 minttl ++ post)
+            with ((be32 serial ++ be32 refresh ++ be32 retry) ++ be32 expire ++ be32 minttl ++ post)
+            by (rewrite <- !app_assoc; reflexivity); apply S1; reflexivity|exact U4|lia]. cbn [bind].
+      rewrite (sub_u32x _ _ (o + 16) minttl);
+        [|replace (be32 serial ++ be32 refresh ++ be32 retry ++ be32 expire ++ be32 minttl ++ post)
+            with ((be32 serial ++ be32 refresh ++ be32 retry ++ be32 expire) ++ be32 minttl ++ post)
+            by (rewrite <- !app_assoc; reflexivity); apply S1; reflexivity|exact U5|lia]. cbn [bind].
+      rewrite !app_length, !be32_len.
+      rewrite check_len_eq; [f_equal; f_equal; unfold o; lia|].
+      rewrite mod_small by lia. unfold o. lia.
+    + rewrite !app_length, !be32_len. lia.
+  - (* MX *) destruct Hw as [U W].
+    assert (Hok2 : tbl_ok (pre ++ be16 pref) t) by now apply tbl_ok_app.
+    destruct (cc_name_ok _ W Hd (pre ++ be16 pref) t Hok2) as (b1 & t1 & Hp & Htab & Hun).
+    rewrite app_length, be16_len in Hp. rewrite Hp. cbn [bind].
+    pose proof (name_len_small _ _ _ _ _ _ Hp) as L1.
+    do 2 eexists. split; [reflexivity|]. split; [|split].
+    + intros post. specialize (Htab post). rewrite <- !app_assoc in *. exact Htab.
+    + intros post. replace (pre ++ (be16 pref ++ b1) ++ post) with (pre ++ be16 pref ++ b1 ++ post)
+        by (rewrite <- !app_assoc; reflexivity).
+      rewrite (sub_u16x _ _ (length pre) pref); [|apply sub_at|exact U|reflexivity]. cbn [bind].
+      specialize (Hun post). rewrite <- app_assoc, app_length, be16_len in Hun. rewrite Hun. cbn [bind].
+      rewrite app_length, be16_len. rewrite check_len_eq; [f_equal; f_equal; lia|]. rewrite mod_small by lia. lia.
+    + rewrite app_length, be16_len. lia.
+  - (* SRV *) destruct Hw as (U1 & U2 & U3 & W).
+    set (front := be16 prio ++ be16 weight ++ be16 port).
+    assert (Hfl : length front = 6) by reflexivity.
+    assert (Hok2 : tbl_ok (pre ++ front) t) by now apply tbl_ok_app.
+    destruct (cc_name_ok _ W Hd (pre ++ front) t Hok2) as (b1 & t1 & Hp & Htab & Hun).
+    rewrite app_length, Hfl in Hp. rewrite Hp. cbn [bind].
+    pose proof (name_len_small _ _ _ _ _ _ Hp) as L1.
+    do 2 eexists. split; [reflexivity|]. split; [|split].
+    + intros post. specialize (Htab post). unfold front in Htab. rewrite <- !app_assoc in *. exact Htab.
+    + intros post.
+      replace (pre ++ (be16 prio ++ be16 weight ++ be16 port ++ b1) ++ post)
+        with (pre ++ be16 prio ++ be16 weight ++ be16 port ++ b1 ++ post) by (rewrite <- !app_assoc; reflexivity).
+      rewrite (sub_u16x _ _ (length pre) prio); [|apply sub_at|exact U1|reflexivity]. cbn [bind].
+      rewrite (sub_u16x _ _ (length pre + 2) weight); [|apply (sub_at2 pre (be16 prio))|exact U2|reflexivity]. cbn [bind].
+      rewrite (sub_u16x _ _ (length pre + 2 + 2) port);
+        [|exists (pre ++ be16 prio ++ be16 weight), (b1 ++ post); rewrite !app_length, !be16_len, <- !app_assoc;
+          split; [reflexivity|lia]|exact U3|reflexivity]. cbn [bind].
+      specialize (Hun post). unfold front in Hun. rewrite <- !app_assoc, app_length in Hun.
+      replace (length pre + 2 + 2 + 2) with (length pre + length (be16 prio ++ be16 weight ++ be16 port)) by (change (length (be16 prio ++ be16 weight ++ be16 port)) with 6; lia).
+      rewrite Hun. cbn [bind]. rewrite !app_length, !be16_len.
+      rewrite check_len_eq; [f_equal; f_equal; cbn [length]; lia|]. rewrite mod_small by lia. cbn [length]. lia.
+    + rewrite !app_length, !be16_len. lia.
+  - (* raw *) destruct Hw as [Hb Hl].
+    assert ((65535 <? N.of_nat (length data))%N = false) as -> by (apply N.ltb_ge; lia).
+    do 2 eexists. split; [reflexivity|]. split; [intros; now apply tbl_ok_app|]. split; [|lia].
+    intros post. rewrite mod_small by lia.
+    rewrite (sub_bytesx _ _ (length pre) _ data); [|apply sub_at|reflexivity|reflexivity]. cbn [bind]. reflexivity.
+Qed.
+
+(* ---------- resource records ---------- *)
+Definition rr_depth_ok (r : rr) : Prop := name_depth (r_name r) <= 10 /\ rdata_depth_ok (r_data r).
+
+Definition cc_rr (r : rr) : Prop := forall pre t, tbl_ok pre t ->
+  exists b t' r', pack_rr true r (length pre) t = Ok (b, t') /\
+    (forall post, tbl_ok (pre ++ b ++ post) t') /\
+    (forall post, unpack_rr (pre ++ b ++ post) (length pre) = Ok (r', length pre + length b)) /\
+    rr_view r' = rr_view r.
+
+Lemma rdlen_u16' d rb : (N.of_nat (length rb) < 65536)%N -> u16 (rdlen_field d rb).
+Proof. unfold u16, rdlen_field. intros H. destruct d; try lia; rewrite N.mod_small; lia. Qed.
+
+Lemma cc_rr_ok r : wf_rr r -> rr_depth_ok r -> cc_rr r.
+Proof.
+  intros (Wn & Wt & Wc & Wl & Wd) [Dn Dd] pre t Hok.
+  destruct r as [name ty cl ttl rlen d]. cbn [r_name r_type r_class r_ttl r_data] in *.
+  destruct (cc_name_ok _ Wn Dn pre t Hok) as (nb & t1 & Hp1 & Htab1 & Hun1).
+  (* the RDATA octets depend only on the offset and the table, not on the header octets before them *)
+  set (x0 := repeat 0%N 10).
+  assert (Hok0 : tbl_ok (pre ++ nb ++ x0) t1) by (specialize (Htab1 x0); now rewrite app_nil_r in Htab1 || exact Htab1).
+  assert (Hok0' : tbl_ok ((pre ++ nb) ++ x0) t1) by (rewrite <- app_assoc; specialize (Htab1 x0); exact Htab1 || exact Hok0).
+  destruct (cc_rdata_ok ty d Wd Dd ((pre ++ nb) ++ x0) t1 Hok0') as (rb & t2 & Hp2 & _ & _ & Hsmall).
+  rewrite !app_length in Hp2. change (length x0) with 10 in Hp2.
+  set (x1 := be16 ty ++ be16 cl ++ be32 ttl ++ be16 (rdlen_field d rb)).
+  assert (Hx1 : length x1 = 10) by reflexivity.
+  assert (Hok1 : tbl_ok ((pre ++ nb) ++ x1) t1) by (rewrite <- app_assoc; exact (Htab1 x1)).
+  destruct (cc_rdata_ok ty d Wd Dd ((pre ++ nb) ++ x1) t1 Hok1) as (rb' & t2' & Hp2' & Htab2 & Hun2 & _).
+  rewrite !app_length, Hx1 in Hp2'. rewrite Hp2 in Hp2'. inversion Hp2'; subst rb' t2'. clear Hp2'.
+  unfold pack_rr. cbn [r_name r_type r_class r_ttl r_data]. rewrite Hp1. cbn [bind]. rewrite Hp2. cbn [bind].
+  exists (nb ++ be16 ty ++ be16 cl ++ be32 ttl ++ be16 (rdlen_field d rb) ++ rb), t2,
+         (mkRR name ty cl ttl (rdlen_field d rb) d).
+  split; [reflexivity|]. split; [|split; [|reflexivity]].
+  - intros post. specialize (Htab2 post). unfold x1 in Htab2. rewrite <- !app_assoc in *. exact Htab2.
+  - intros post. unfold unpack_rr.
+    set (tail := be16 ty ++ be16 cl ++ be32 ttl ++ be16 (rdlen_field d rb) ++ rb ++ post).
+    replace (pre ++ (nb ++ be16 ty ++ be16 cl ++ be32 ttl ++ be16 (rdlen_field d rb) ++ rb) ++ post)
+      with (pre ++ nb ++ tail) by (unfold tail; rewrite <- !app_assoc; reflexivity).
+    rewrite (Hun1 tail). cbn [bind]. set (o := length pre + length nb).
+    assert (S1 : forall k x rest front, length front = k -> sub (pre ++ nb ++ front ++ x ++ rest) (o + k) x).
+    { intros k x rest front Hk. exists (pre ++ nb ++ front), rest.
+      rewrite !app_length, <- !app_assoc. split; [reflexivity|unfold o; lia]. }
+    unfold tail.
+    rewrite (sub_u16x _ _ (o + 0) ty); [|apply (S1 0 _ _ []); reflexivity|exact Wt|lia]. cbn [bind].
+    rewrite (sub_u16x _ _ (o + 2) cl); [|apply (S1 2 _ _ (be16 ty)); reflexivity|exact Wc|lia]. cbn [bind].
+    rewrite (sub_u32x _ _ (o + 4) ttl);
+      [|replace (be16 ty ++ be16 cl ++ be32 ttl ++ be16 (rdlen_field d rb) ++ rb ++ post)
+          with ((be16 ty ++ be16 cl) ++ be32 ttl ++ be16 (rdlen_field d rb) ++ rb ++ post)
+          by (rewrite <- !app_assoc; reflexivity); apply S1; reflexivity|exact Wl|lia]. cbn [bind].
+    rewrite (sub_u16x _ _ (o + 8) (rdlen_field d rb));
+      [|replace (be16 ty ++ be16 cl ++ be32 ttl ++ be16 (rdlen_field d rb) ++ rb ++ post)
+          with ((be16 ty ++ be16 cl ++ be32 ttl) ++ be16 (rdlen_field d rb) ++ rb ++ post)
+          by (rewrite <- !app_assoc; reflexivity); apply S1; reflexivity|now apply rdlen_u16'|lia]. cbn [bind].
+    specialize (Hun2 post). unfold x1 in Hun2. rewrite <- !app_assoc, !app_length in Hun2.
+    rewrite !be16_len, be32_len in Hun2.
+    match type of Hun2 with unpack_rdata _ ?o' _ _ = _ =>
+      match goal with |- context [unpack_rdata _ ?og _ _] => replace og with o' by (unfold o; lia) end end.
+    rewrite Hun2. cbn [bind]. f_equal. f_equal. rewrite !app_length, !be16_len, be32_len. lia.
+Qed.
+
+(* ---------- sections ---------- *)
+Section CCList.
+  Context {A V : Type} (plen : A -> nat) (pk : A -> nat -> tbl -> res (list N * tbl))
+          (un : list N -> nat -> res (A * nat)) (P : A -> Prop) (vw : A -> V).
+  Hypothesis Hlen : forall x off t b t', P x -> pk x off t = Ok (b, t') -> length b <= plen x.
+  Hypothesis Hcc : forall x, P x -> forall pre t, tbl_ok pre t ->
+    exists b t' x', pk x (length pre) t = Ok (b, t') /\
+      (forall post, tbl_ok (pre ++ b ++ post) t') /\
+      (forall post, un (pre ++ b ++ post) (length pre) = Ok (x', length pre + length b)) /\
+      vw x' = vw x.
+
+  Fixpoint unpack_list (n : nat) (msg : list N) (off : nat) : res (list A * nat) :=
+    match n with
+    | O => Ok ([], off)
+    | S n' => do (x, o1) <- un msg off;
+              do (xs, o2) <- unpack_list n' msg o1;
+              Ok (x :: xs, o2)
+    end.
+
+  Lemma cc_list xs : Forall P xs -> forall pre t buflen, tbl_ok pre t ->
+    length pre + sum_len plen xs <= buflen ->
+    exists bs t' xs', pack_list plen pk None buflen xs (length pre) t = Ok (bs, t', length xs) /\
+      (forall post, tbl_ok (pre ++ bs ++ post) t') /\
+      (forall post, unpack_list (length xs) (pre ++ bs ++ post) (length pre) = Ok (xs', length pre + length bs)) /\
+      map vw xs' = map vw xs /\ length bs <= sum_len plen xs.
+  Proof.
+    induction 1 as [|x xs Hx _ IH]; intros pre t buflen Hok Hfit.
+    - exists [], t, []. cbn. repeat split; auto.
+      + intros post. now apply tbl_ok_app.
+      + intros post. f_equal. f_equal. lia.
+    - cbn [sum_len fold_right] in Hfit. fold (sum_len plen xs) in Hfit.
+      destruct (Hcc x Hx pre t Hok) as (b & t1 & x' & Hp & Htab & Hun & Hv).
+      pose proof (Hlen _ _ _ _ _ Hx Hp) as Hb.
+      assert (Hok1 : tbl_ok (pre ++ b) t1) by (specialize (Htab []); now rewrite app_nil_r in Htab).
+      destruct (IH (pre ++ b) t1 buflen Hok1) as (bs & t2 & xs' & Hps & Htabs & Huns & Hvs & Hls).
+      { rewrite app_length. lia. }
+      rewrite app_length in Hps.
+      exists (b ++ bs), t2, (x' :: xs'). cbn [pack_list over length]. rewrite Hp. cbn [bind].
+      assert (buflen <? length pre + length b = false) as -> by (apply Nat.ltb_ge; lia).
+      rewrite Hps. cbn [bind]. split; [reflexivity|]. split; [|split; [|split]].
+      + intros post. specialize (Htabs post). rewrite <- !app_assoc in *. exact Htabs.
+      + intros post. cbn [unpack_list].
+        replace (pre ++ (b ++ bs) ++ post) with (pre ++ b ++ (bs ++ post)) by (rewrite <- !app_assoc; reflexivity).
+        rewrite Hun. cbn [bind]. specialize (Huns post). rewrite <- app_assoc, app_length in Huns.
+        rewrite Huns. cbn [bind]. f_equal. f_equal. rewrite app_length. lia.
+      + cbn [map]. now rewrite Hv, Hvs.
+      + cbn [sum_len fold_right]. fold (sum_len plen xs). rewrite app_length. lia.
+  Qed.
+End CCList.
+
+Lemma unpack_qs_list n msg off : unpack_qs n msg off = unpack_list unpack_question n msg off.
+Proof.
+  revert off; induction n as [|n IH]; intros off; cbn [unpack_qs unpack_list]; [reflexivity|].
+  destruct (unpack_question msg off) as [[q o]| | |]; cbn [bind]; try reflexivity; now rewrite IH.
+Qed.
+Lemma unpack_rrs_list n msg off : unpack_rrs n msg off = unpack_list unpack_rr n msg off.
+Proof.
+  revert off; induction n as [|n IH]; intros off; cbn [unpack_rrs unpack_list]; [reflexivity|].
+  destruct (unpack_rr msg off) as [[q o]| | |]; cbn [bind]; try reflexivity; now rewrite IH.
+Qed.
+
+(* ---------- the whole message ---------- *)
+Definition msg_depth_ok (m : msg) : Prop :=
+  Forall q_depth_ok (m_qs m) /\ Forall rr_depth_ok (m_an m) /\ Forall rr_depth_ok (m_ns m) /\ Forall rr_depth_ok (m_ar m).
+
+Lemma unpack_header_bytes h qd an ns ar rest : wf_header h -> u16 qd -> u16 an -> u16 ns -> u16 ar ->
+  unpack_header (hdr_bytes (h_id h) (hdr_bits h) qd an ns ar ++ rest) = Ok (h, (qd, an, ns, ar), 12).
+Proof.
+  intros Hh Uq Ua Un Ur. destruct (hdr_roundtrip _ Hh) as (Hb16 & Hrt & _). destruct Hh as (Hid & _).
+  set (msg := hdr_bytes (h_id h) (hdr_bits h) qd an ns ar ++ rest).
+  assert (Hs : sub msg 0 (hdr_bytes (h_id h) (hdr_bits h) qd an ns ar)) by (exists [], rest; split; reflexivity).
+  unfold hdr_bytes in Hs. split_sub Hs. norm.
+  unfold unpack_header.
+  assert (length msg <? 12 = false) as ->.
+  { apply Nat.ltb_ge. unfold msg. rewrite app_length, hdr_bytes_len. lia. }
+  rewrite (sub_u16x _ _ _ _ S Hid) by lia. cbn [bind].
+  rewrite (sub_u16x _ _ _ _ S0 Hb16) by lia. cbn [bind].
+  rewrite (sub_u16x _ _ _ _ S1 Uq) by lia. cbn [bind].
+  rewrite (sub_u16x _ _ _ _ S2 Ua) by lia. cbn [bind].
+  rewrite (sub_u16x _ _ _ _ S3 Un) by lia. cbn [bind].
+  rewrite (sub_u16x _ _ _ _ Hs Ur) by lia. cbn [bind].
+  rewrite Hrt. reflexivity.
+Qed.
+
+Definition cc_q_adapter q (Hq : wf_question q /\ q_depth_ok q) := cc_question_ok q (proj1 Hq) (proj2 Hq).
+
+(* C02, compression ON: a well-formed message none of whose names has more than 10 labels is packed (into a buffer
+   of Msg.Len octets) to wire data that decodes, whatever follows it, to a message with the same view *)
+Theorem compressed_roundtrip m post : wf_msg m -> msg_depth_ok m ->
+  exists out m', pack_msg (msg_len m) true 0 m = Ok out /\ unpack_msg (out ++ post) = Ok m' /\ view m' = view m /\
+                 length out <= msg_len m.
+Proof.
+  intros (Hh & Fq & Fa & Fn & Fr & Cq & Ca & Cn & Cr) (Dq & Da & Dn & Dr).
+  rewrite pack_msg_0. unfold pack_msg_nolimit. rewrite !too_many_false by assumption. cbn [orb].
+  assert (msg_len m <? 12 = false) as -> by (apply Nat.ltb_ge; unfold msg_len; lia).
+  set (hb := hdr_bytes (h_id (m_hdr m)) (hdr_bits (m_hdr m)) (N.of_nat (length (m_qs m)))
+                       (N.of_nat (length (m_an m))) (N.of_nat (length (m_ns m))) (N.of_nat (length (m_ar m)))).
+  assert (Hhb : length hb = 12) by apply hdr_bytes_len.
+  assert (Hok0 : tbl_ok hb []) by constructor.
+  (* questions *)
+  assert (FQ : Forall (fun q => wf_question q /\ q_depth_ok q) (m_qs m)).
+  { rewrite Forall_forall in *. intros q Hq. split; auto. }
+  assert (FA : Forall (fun r => wf_rr r /\ rr_depth_ok r) (m_an m)) by (rewrite Forall_forall in *; intros r Hr; split; auto).
+  assert (FN : Forall (fun r => wf_rr r /\ rr_depth_ok r) (m_ns m)) by (rewrite Forall_forall in *; intros r Hr; split; auto).
+  assert (FR : Forall (fun r => wf_rr r /\ rr_depth_ok r) (m_ar m)) by (rewrite Forall_forall in *; intros r Hr; split; auto).
+  assert (CCQ : forall x, (wf_question x /\ q_depth_ok x) -> forall pre t, tbl_ok pre t ->
+            exists b t' x', pack_question true x (length pre) t = Ok (b, t') /\
+              (forall post, tbl_ok (pre ++ b ++ post) t') /\
+              (forall post, unpack_question (pre ++ b ++ post) (length pre) = Ok (x', length pre + length b)) /\ x' = x).
+  { intros x [W D] pre t Hok. destruct (cc_question_ok x W D pre t Hok) as (b & t' & H1 & H2 & H3).
+    exists b, t', x. auto. }
+  assert (CCR : forall x, (wf_rr x /\ rr_depth_ok x) -> forall pre t, tbl_ok pre t ->
+            exists b t' x', pack_rr true x (length pre) t = Ok (b, t') /\
+              (forall post, tbl_ok (pre ++ b ++ post) t') /\
+              (forall post, unpack_rr (pre ++ b ++ post) (length pre) = Ok (x', length pre + length b)) /\
+              rr_view x' = rr_view x).
+  { intros x [W D]. exact (cc_rr_ok x W D). }
+  assert (LQ : forall x off t b t', (wf_question x /\ q_depth_ok x) -> pack_question true x off t = Ok (b, t') -> length b <= q_len x)
+    by (intros; eapply pack_question_len; eauto).
+  assert (LR : forall x off t b t', (wf_rr x /\ rr_depth_ok x) -> pack_rr true x off t = Ok (b, t') -> length b <= rr_len x)
+    by (intros x off t b t' [W _] Hp; eapply pack_rr_len; eauto).
+  unfold msg_len.
+  destruct (cc_list q_len (pack_question true) unpack_question _ (fun q => q) LQ CCQ (m_qs m) FQ hb [] (msg_len m) Hok0)
+    as (qb & t1 & qs' & Pq & Tq & Uq & Vq & Lq); [unfold msg_len; lia|].
+  rewrite Hhb in Pq. unfold msg_len in Pq. rewrite Pq. cbn [bind].
+  assert (Hok1 : tbl_ok (hb ++ qb) t1) by (specialize (Tq []); now rewrite app_nil_r in Tq).
+  destruct (cc_list rr_len (pack_rr true) unpack_rr _ rr_view LR CCR (m_an m) FA (hb ++ qb) t1 (msg_len m) Hok1)
+    as (ab & t2 & an' & Pa & Ta & Ua & Va & La); [rewrite app_length; unfold msg_len; lia|].
+  rewrite app_length, Hhb in Pa. unfold msg_len in Pa. rewrite Pa. cbn [bind].
+  assert (Hok2 : tbl_ok ((hb ++ qb) ++ ab) t2) by (specialize (Ta []); now rewrite app_nil_r in Ta).
+  destruct (cc_list rr_len (pack_rr true) unpack_rr _ rr_view LR CCR (m_ns m) FN ((hb ++ qb) ++ ab) t2 (msg_len m) Hok2)
+    as (nb & t3 & ns' & Pn & Tn & Un & Vn & Ln); [rewrite !app_length; unfold msg_len; lia|].
+  rewrite !app_length, Hhb in Pn. unfold msg_len in Pn. rewrite Pn. cbn [bind].
+  assert (Hok3 : tbl_ok (((hb ++ qb) ++ ab) ++ nb) t3) by (specialize (Tn []); now rewrite app_nil_r in Tn).
+  destruct (cc_list rr_len (pack_rr true) unpack_rr _ rr_view LR CCR (m_ar m) FR (((hb ++ qb) ++ ab) ++ nb) t3 (msg_len m) Hok3)
+    as (rb & t4 & ar' & Pr & Tr & Ur & Vr & Lr); [rewrite !app_length; unfold msg_len; lia|].
+  rewrite !app_length, Hhb in Pr. unfold msg_len in Pr. rewrite Pr. cbn [bind].
+  rewrite !Nat.eqb_refl. cbn [andb negb]. rewrite Nat.add_0_r, app_nil_r. fold hb.
+  exists (hb ++ qb ++ ab ++ nb ++ rb), (mkMsg (m_hdr m) qs' an' ns' ar').
+  split; [reflexivity|]. split; [|split].
+  - unfold unpack_msg.
+    replace ((hb ++ qb ++ ab ++ nb ++ rb) ++ post) with (hb ++ (qb ++ ab ++ nb ++ rb ++ post)) by (rewrite <- !app_assoc; reflexivity).
+    unfold hb at 1. rewrite unpack_header_bytes by (auto using count_u16). cbn [bind]. rewrite !Nat2N.id. fold hb.
+    rewrite unpack_qs_list.
+    specialize (Uq (ab ++ nb ++ rb ++ post)). rewrite Hhb in Uq.
+    replace (hb ++ qb ++ ab ++ nb ++ rb ++ post) with (hb ++ qb ++ (ab ++ nb ++ rb ++ post)) by reflexivity.
+    rewrite Uq. cbn [bind]. rewrite unpack_rrs_list.
+    specialize (Ua (nb ++ rb ++ post)). rewrite app_length, Hhb in Ua.
+    replace ((hb ++ qb) ++ ab ++ nb ++ rb ++ post) with (hb ++ qb ++ ab ++ nb ++ rb ++ post) in Ua by (rewrite <- !app_assoc; reflexivity).
+    rewrite Ua. cbn [bind]. rewrite unpack_rrs_list.
+    specialize (Un (rb ++ post)). rewrite !app_length, Hhb in Un.
+    replace (((hb ++ qb) ++ ab) ++ nb ++ rb ++ post) with (hb ++ qb ++ ab ++ nb ++ rb ++ post) in Un by (rewrite <- !app_assoc; reflexivity).
+    rewrite Un. cbn [bind]. rewrite unpack_rrs_list.
+    specialize (Ur post). rewrite !app_length, Hhb in Ur.
+    replace ((((hb ++ qb) ++ ab) ++ nb) ++ rb ++ post) with (hb ++ qb ++ ab ++ nb ++ rb ++ post) in Ur by (rewrite <- !app_assoc; reflexivity).
+    rewrite Ur. cbn [bind]. reflexivity.
+  - unfold view. cbn [m_hdr m_qs m_an m_ns m_ar]. rewrite map_id in Vq. rewrite map_id in Vq. now rewrite Vq, Va, Vn, Vr.
+  - rewrite !app_length, Hhb. lia.
+Qed.
